@@ -1215,6 +1215,10 @@ class Interp:
             try:
                 return self.load_module(obj.name + "." + name)
             except Unsupported:
+                if not obj.name.startswith(self.package):
+                    # an external library is modelled only as far as the repository uses it: a name that
+                    # is not modelled is a limit of the model, not an AttributeError of the program
+                    raise Unsupported(f"{obj.name}.{name} is not part of the model of {obj.name.split('.')[0]}")
                 raise PyRaise(ExcValue("AttributeError", (f"module {obj.name} has no attribute {name}",)))
         if isinstance(obj, LocalObj):
             if name == "__dict__":
